@@ -10,11 +10,14 @@ struct colvardeps { enum features_biases
   ; enum features_colvar
 #include "features_colvar.body.inc"
   ; };
-struct obj_stub { int kind, tag, tsf; bool enabled_;
+// stand-in for a colvardeps object with the two capabilities that matter here: "awake" requires "active"; an object is active from its
+// initialisation; enabling awake (re)activates it and holds a reference on active; disabling an enabled awake releases that reference and
+// the object goes to sleep (auto-disable); disabling a capability that is off does nothing (colvardeps::disable)
+struct obj_stub { int kind, tag, tsf; bool active_, awake_;
   int get_time_step_factor() const { return tsf; }
-  int enable(int f) { k_awake(kind, tag, 1); return 0; }
-  int disable(int f) { k_awake(kind, tag, 0); return 0; }
-  bool is_enabled(int f = 0) const { return enabled_; } };
+  int enable(int f) { k_awake(kind, tag, 1); if (f == 1) { awake_ = true; active_ = true; } else { active_ = true; } return 0; }
+  int disable(int f) { k_awake(kind, tag, 0); if (f == 1) { if (awake_) { awake_ = false; active_ = false; } } else { active_ = false; awake_ = false; } return 0; }
+  bool is_enabled(int f = 0) const { return f == 1 ? awake_ : active_; } };
 typedef obj_stub colvarbias_t; 
 #define colvarbias obj_stub
 #define colvar obj_stub
@@ -30,12 +33,15 @@ struct K_cc {
 #undef colvarbias
 #undef colvar
 extern "C" { extern int g_active_tag[2]; extern size_t g_nactive; }
-extern "C" int k_calc_colvars_head(int btsf, int vtsf0, int vtsf1, bool en0, bool en1) {
+extern "C" { extern int g_state[6]; }
+extern "C" int k_calc_colvars_head(int btsf, int vtsf0, int vtsf1, bool en0, bool en1, bool bawake, bool vawake) {
   K_cc f; obj_stub b0, v0, v1; obj_stub *bp[1], *vp[2], *ap[2];
-  b0.kind = 0; b0.tag = 0; b0.tsf = btsf; b0.enabled_ = true; v0.kind = 1; v0.tag = 0; v0.tsf = vtsf0; v0.enabled_ = en0; v1.kind = 1; v1.tag = 1; v1.tsf = vtsf1; v1.enabled_ = en1;
+  b0.kind = 0; b0.tag = 0; b0.tsf = btsf; b0.active_ = true; b0.awake_ = bawake; v0.kind = 1; v0.tag = 0; v0.tsf = vtsf0; v0.active_ = en0; v0.awake_ = vawake && en0; v1.kind = 1; v1.tag = 1; v1.tsf = vtsf1; v1.active_ = en1; v1.awake_ = false;
+  e_l[10] = bawake; e_l[11] = vawake;
   bp[0] = &b0; vp[0] = &v0; vp[1] = &v1; CVS_VIEW(f.biases, bp, 1); CVS_VIEW(f.vars_, vp, 2); f.active_.p_ = ap; f.active_.n_ = 2; f.active_.cap_ = 2;
   e_l[5] = btsf; e_l[6] = vtsf0; e_l[7] = vtsf1; e_l[8] = en0; e_l[9] = en1; e_l[3] = g_step_abs;
   int r = f.body();
+  g_state[0] = b0.active_; g_state[1] = b0.awake_; g_state[2] = v0.active_; g_state[3] = v0.awake_;
   g_nactive = f.active_.n_; for (size_t k = 0; k < 2; k++) { if (k < f.active_.n_) g_active_tag[k] = ap[k]->tag; }
   return r;
 }
